@@ -26,6 +26,8 @@ Section CL.
   Variable eok : relem R -> bool.
   Hypothesis HR : fmt_ranged F eok.
   Hypothesis HS : schema_ok S OPS ATTRS OBJS = true.
+  (* every lemma of this section takes the same prefix: S OPS ATTRS OBJS F eok HR HS *)
+  Set Default Proof Using "All".
 
   Local Notation enc_ty := (enc_ty S).
   Local Notation enc_fields := (enc_fields S).
